@@ -417,8 +417,7 @@ class WebSocket:
         ----------
         data: string (byte array) value.
         """
-        with self.readlock:
-            opcode, data = self.recv_data()
+        opcode, data = self.recv_data()
         if opcode == ABNF.OPCODE_TEXT:
             data_received: Union[bytes, str] = data
             if isinstance(data_received, bytes):
@@ -469,6 +468,10 @@ class WebSocket:
         frame.opcode, frame: tuple
             tuple of operation code and string(byte array) value.
         """
+        with self.readlock:
+            return self._recv_data_frame(control_frame)
+
+    def _recv_data_frame(self, control_frame: bool) -> tuple:
         while True:
             frame = self.recv_frame()
             if isEnabledForTrace():
